@@ -3,7 +3,7 @@
 From Coq Require Import ExtrOcamlBasic ExtrOcamlZBigInt.
 From GoIpa Require Import Model.Parallel Model.Bytes Model.Zq Model.Sha256 Model.Alg
   Model.Transcript Model.Edwards Model.FpSqrt Model.Banderwagon Model.Codec Model.Bary
-  Model.IPA Model.Multiproof Model.Serde Model.Concrete.
+  Model.IPA Model.Multiproof Model.Serde Model.Pippenger Model.Mont Model.Concrete.
 
 Extraction "model.ml"
   execute_ranges
@@ -19,4 +19,8 @@ Extraction "model.ml"
   gen_points c_weights c_config c_commit c_transcript_run c_transcript_spec_run
   c_ipa_create c_ipa_check c_mp_create c_mp_check c_challenge t_new
   c_divide_on_domain c_bary_coeffs c_compute_b c_batch_invert_fr c_batch_invert_fp c_inner c_msm
+  lval limbs_of mul_generic from_mont_generic add_generic double_generic sub_generic neg_generic
+  reduce_generic butterfly_generic i_add i_sub i_neg i_double i_mul i_from_mont i_to_mont i_inverse i_div
+  i_exp i_legendre i_sqrt i_mul_by i_cmp i_lex_largest c_batch_invert_mont
+  partition_scalars c_msm_inner best_c split_loop nb_chunks
   read_point read_scalar mp_read ipa_read mp_write_chunks ipa_write_chunks write_all mkR.
